@@ -109,6 +109,7 @@ def build_all():
             tmp = facts + ".new"
             if os.path.exists(tmp):
                 os.remove(tmp)
+            os.makedirs(os.path.dirname(tmp), exist_ok=True)  # a fresh checkout has no Gen/ directory (Facts.lean is untracked)
             rc, o = run([os.path.join(bindir, "extract"), REPO, tmp])
             if rc != 0 or not os.path.exists(tmp):
                 res["extract_ok"] = False
